@@ -133,9 +133,7 @@ func newMemEnv(c ccase, limit int64, nstart uint32) (*env, error) {
 		if err != nil {
 			return nil, err
 		}
-		sc.Feed(ref.EncodeTCP(ref.Msg{Code: 7<<5 | 1, Opts: []ref.Opt{{ID: 2, Val: ref.Uint(1152)}, {ID: 4, Val: nil}}}))
-		sc.WaitConsumed(watchdog)
-		time.Sleep(200 * time.Microsecond)
+		sim.AnnounceBlockwise(sc, cc, ref.EncodeTCP(ref.Msg{Code: 7<<5 | 1, Opts: []ref.Opt{{ID: 2, Val: ref.Uint(1152)}, {ID: 4, Val: nil}}}))
 		e.cc = cc
 		find := func(path string) (ref.Msg, bool) {
 			ms, _ := ref.ParseTCPStream(sc.Written())
